@@ -193,6 +193,37 @@ def run(ctx):
     ctx.extra['exhaustive'] = True
     ctx.extra['exhaustive_scope'] = f'slice: n<=%d, start/stop in -%d..%d or None, step in 1..%d or None (%d cases)' % (N, N + 2, N + 2, N + 2, len(cases))
     ctx.sample({'op': 'slice', 'args': allc[len(allc) // 2], 'model_reply': model[len(allc) // 2]})
+    # ---------------- one selector OBJECT applied to sequences of different lengths (as the converters do with one
+    # --frame-slice across frame types): every answer must be a function of (selector, n) only
+    for _ in range(ctx.n(1500, 15000)):
+        r = lambda hi: None if rng.random() < 0.3 else rng.randint(-hi, hi)
+        a, b = r(40), r(40)
+        c = None if rng.random() < 0.2 else rng.choice([1, 2, 3, 5, -1, -2, -3])
+        lens = [rng.randint(0, 45) for _ in range(rng.randint(2, 6))]
+        ctx.count('oracle_cases'); ctx.count('reuse_cases')
+        try:
+            obj = S.Slice(a, b, c)
+            for n in lens:
+                want = list(range(n))[a:b:c]
+                pick = rng.randrange(5)       # vary which report is asked first on this length
+                first = [obj.count, obj.first, obj.step, lambda m: list(obj.gen_indices(m)), obj.long_str][pick](n)
+                got = obj.indices(n)
+                if got != want or obj.count(n) != len(want) or list(obj.gen_indices(n)) != want or (want and obj.first(n) != want[0]):
+                    ctx.fail({'op': 'slice_reuse', 'start': a, 'stop': b, 'step': c, 'lens': lens, 'first_call': pick},
+                             f'one Slice object reused on lengths {lens}: at n={n} indices {got[:8]} count {obj.count(n)}, Python slicing gives {want[:8]}')
+                    break
+        except Exception as e:
+            ctx.fail({'op': 'slice_reuse', 'start': a, 'stop': b, 'step': c, 'lens': lens, 'first_call': 0}, f'raised {type(e).__name__}: {e}')
+        sN = rng.randint(1, 30)
+        try:
+            smp = S.Sample(sN)
+            for n in lens:
+                idx = smp.indices(n)
+                if len(idx) != min(sN, n) or smp.count(n) != len(idx) or list(smp.gen_indices(n)) != idx or (idx and idx[0] != 0) or any(y <= x for x, y in zip(idx, idx[1:])):
+                    ctx.fail({'op': 'sample_reuse', 'N': sN, 'lens': lens}, f'one Sample object reused on lengths {lens}: at n={n} got {idx[:8]}')
+                    break
+        except Exception as e:
+            ctx.fail({'op': 'sample_reuse', 'N': sN, 'lens': lens}, f'raised {type(e).__name__}: {e}')
     # ---------------- samples
     M = ctx.n(40, 120)
     sc = [(s, n) for s in range(1, M + 1) for n in range(0, M + 20)]
@@ -250,6 +281,25 @@ def replay(ctx, rec):
     elif case.get('op') == 'sample':
         out, res = impl_sample(S, case['N'], case['n'])
         oracle_sample(ctx, case['N'], case['n'], res)
+    elif case.get('op') == 'slice_reuse':
+        obj = S.Slice(case['start'], case['stop'], case['step'])
+        for n in case['lens']:
+            want = list(range(n))[case['start']:case['stop']:case['step']]
+            try:
+                [obj.count, obj.first, obj.step, lambda m: list(obj.gen_indices(m)), obj.long_str][case.get('first_call', 0)](n)
+                got = obj.indices(n)
+            except Exception as e:
+                return False, f'raised {type(e).__name__}: {e}'
+            if got != want or obj.count(n) != len(want):
+                return False, f'at n={n}: {got[:8]} (count {obj.count(n)}) vs Python slicing {want[:8]}'
+        return True, 'object reuse gives Python slicing on every length'
+    elif case.get('op') == 'sample_reuse':
+        smp = S.Sample(case['N'])
+        for n in case['lens']:
+            idx = smp.indices(n)
+            if len(idx) != min(case['N'], n) or smp.count(n) != len(idx):
+                return False, f'at n={n}: {idx[:8]}'
+        return True, 'object reuse ok'
     elif case.get('op') == 'parse':
         out = impl_parse(S, case['text'])
         return True, f'parse result now: {out} (recorded: {rec.get("detail")})'
